@@ -28,6 +28,10 @@ from indi.transport.server import tcp as server_tcp  # noqa: E402
 NONE = "none"
 
 
+def fmt9(x) -> str:
+    return "%.9f" % float(x)
+
+
 class Link:
     """one direction of one TCP connection: chunks written by one side, fed to the other side's StreamReader"""
 
@@ -191,7 +195,15 @@ class SysWorld:
                 if not v["een"][ei - 1]:
                     continue
                 el = self.dw.elem(vi, ei)
-                els.append([name, DV.abst(v["kind"], vars(el).get("_value")), "L " + name if v["kind"] != "switch" else name])
+                raw = vars(el).get("_value")
+                if v["kind"] == "number" and raw is not None:
+                    # what a client can see is the value as the property's format renders it; the exact value is kept as a
+                    # fourth field for the frame check of C06
+                    shown = fmt9(DV.parse_number(DVAL.num_to_str(raw, self.dw.fmt.get((vi, ei), "%f"))))
+                    els.append([name, shown, "L " + name, fmt9(raw)])
+                else:
+                    tok = DV.abst(v["kind"], raw)
+                    els.append([name, tok, "L " + name if v["kind"] != "switch" else name, tok])
             out.append({"dev": v["dev"], "name": v["name"], "kind": v["kind"], "st": vec.state_, "label": "Vec " + v["name"],
                         "group": dep["grps"][v["grp"] - 1]["name"], "els": els})
         return out
@@ -209,14 +221,14 @@ class SysWorld:
                     x = e.value
                     if kind == "number" and x is not None:
                         try:
-                            tok = DV.abst("number", DV.parse_number(str(x)))
+                            tok = fmt9(DV.parse_number(str(x)))
                         except Exception:
                             tok = "n?" + str(x)
                     elif kind == "blob":
                         tok = DV.abst("blob", x) if isinstance(x, DVAL.BLOB) or x is None else "b?text"
                     else:
                         tok = DV.abst(kind, x)
-                    els.append([en, tok, e.label])
+                    els.append([en, tok, e.label, tok])
                 out.append({"dev": d, "name": vn, "kind": kind, "st": v.state, "label": v.label, "group": v.group, "els": els})
         return out
 
@@ -260,7 +272,7 @@ class SysWorld:
                     if el is None:
                         continue
                     if v["kind"] == "number":
-                        el.value = op.get("texts", {}).get(name) or DVAL.num_to_str(DV.NUM[tok], "%f")
+                        el.value = op.get("texts", {}).get(name) or tok
                     elif v["kind"] == "blob":
                         b, f = DV.BLOBS[tok] if tok in DV.BLOBS else op["payload"]
                         el.value = DVAL.BLOB(b, f)
@@ -329,9 +341,12 @@ def c01_trace(r, tier: str) -> List[dict]:
                       "target": [v["dev"], v["name"]]}
                 if v["kind"] == "number":
                     op["texts"] = {}
+                    vals = []
                     for nm, tok in op["vals"]:
-                        fmt = w.dw.fmt.get((vi, v["elems"].index(nm) + 1), "%f")
-                        op["texts"][nm] = DVAL.num_to_str(DV.NUM[tok], fmt if r.random() < 0.5 else "%f")
+                        tok = r.choice(["n1", "n2", "n3", "n4", "n5"])
+                        op["texts"][nm] = "%.7f" % DV.NUM[tok] if r.random() < 0.6 else ("%d:%02d:%06.3f" % (int(abs(DV.NUM[tok])), int(abs(DV.NUM[tok]) * 60) % 60, (abs(DV.NUM[tok]) * 3600) % 60) if DV.NUM[tok] >= 0 else "%.7f" % DV.NUM[tok])
+                        vals.append([nm, fmt9(DV.parse_number(op["texts"][nm]))])
+                    op["vals"] = vals
             elif x < 0.97 and len(dep["devorder"]) > 1:
                 # a driver snoops on another device (possibly the second device it snoops on, possibly one property only)
                 a = snooped or r.choice(dep["devorder"])
@@ -353,10 +368,18 @@ def c01_trace(r, tier: str) -> List[dict]:
                 out.append(w.apply({"o": "gen", "g": v["grp"], "b": True}))
                 out.append(w.apply({"o": "ven", "v": vi, "b": True}))
             e1, e2 = names[0], names[1]
-            dom = ["x", "y", "z"] if v["kind"] == "text" else ["n1", "n2", "n3"]
-            out.append(w.apply({"o": "client-write", "client": 0, "v": vi, "vals": [[e1, dom[0]]], "target": [v["dev"], v["name"]]}))
-            out.append(w.apply({"o": "assign", "v": vi, "e": v["elems"].index(e1) + 1, "x": dom[1]}))
-            out.append(w.apply({"o": "client-write", "client": 0, "v": vi, "vals": [[e2, dom[2]]], "target": [v["dev"], v["name"]]}))
+            if v["kind"] == "text":
+                w1, mid, w2, texts1, texts2 = "x", "y", "z", None, None
+            else:
+                w1, mid, w2 = fmt9(1.5), "n5", fmt9(2.25)
+                texts1, texts2 = {e1: "1.5"}, {e2: "2.25"}
+            op1 = {"o": "client-write", "client": 0, "v": vi, "vals": [[e1, w1]], "target": [v["dev"], v["name"]]}
+            op2 = {"o": "client-write", "client": 0, "v": vi, "vals": [[e2, w2]], "target": [v["dev"], v["name"]]}
+            if texts1:
+                op1["texts"], op2["texts"] = texts1, texts2
+            out.append(w.apply(op1))
+            out.append(w.apply({"o": "assign", "v": vi, "e": v["elems"].index(e1) + 1, "x": mid}))     # e.g. 1.2345678: not what "%.2f" shows
+            out.append(w.apply(op2))
         # (b) a driver first snoops on ONE property of another device, that device then (re)defines other properties on the
         #     bus, and the driver then snoops on the whole device
         if len(dep["devorder"]) > 1:
